@@ -1006,3 +1006,42 @@ func (c *Ctx) noDataOnError(p *Program, rule string, f *ssa.Function) {
 		c.ok(rule, construct, fmt.Sprintf("%d exits: each returns either (data, nil) or (nil, error)", nret), p.fnPos(f))
 	}
 }
+
+// argNotConstUnder: under the value assumptions, some call of callee (in f or one level down) is executable
+// and its argument argIdx is not a constant there - the caller's datum reaches the callee.
+func (c *Ctx) argNotConstUnder(p *Program, rule, what string, f *ssa.Function, vas []ValAssume, callee string, argIdx int) {
+	if f == nil {
+		c.undecided(rule, what, "anchor function does not resolve", "")
+		return
+	}
+	construct := fname(f) + ": " + what
+	q := &GuardQuery{P: p, Root: f, ValAssumes: vas, MaxDepth: 1}
+	var consts, tops []string
+	q.Observe = func(in *ssa.Function, site ssa.CallInstruction, name string, get func(ssa.Value) lat) {
+		if normName(name) != normName(callee) || argIdx >= len(site.Common().Args) {
+			return
+		}
+		l := get(site.Common().Args[argIdx])
+		if l.k == kConst {
+			consts = append(consts, fmt.Sprintf("%s (%s)", p.pos(site.Pos()), l.c.ExactString()))
+		} else {
+			tops = append(tops, p.pos(site.Pos()))
+		}
+	}
+	r := runGuard(q)
+	for _, va := range vas {
+		if len(r.Sites[va.Name]) == 0 {
+			c.undecided(rule, construct, "value "+va.Name+" not found in the function", p.fnPos(f))
+			return
+		}
+	}
+	consts, tops = uniq(consts), uniq(tops)
+	switch {
+	case len(consts)+len(tops) == 0:
+		c.bad(rule, construct, "no call of "+callee+" is executable under the assumptions", p.fnPos(f))
+	case len(consts) > 0:
+		c.bad(rule, construct, fmt.Sprintf("argument %d of %s is the constant %s: what the caller supplied is dropped", argIdx, callee, strings.Join(consts, ", ")), p.fnPos(f))
+	default:
+		c.ok(rule, construct, fmt.Sprintf("argument %d of %s is not a constant at %s", argIdx, callee, strings.Join(tops, ", ")), p.fnPos(f))
+	}
+}
